@@ -66,7 +66,9 @@ static int bufs() {
       p.resetTransitionHighWater();
       long long base = (long long) LocalDate::forComponents(y, 1, 1).toEpochDays() * 86400LL;
       long long pts[] = {base, base + 86399, base + 181LL * 86400, base + 364LL * 86400 + 86399};
-      for (long long t : pts) { if (t > INT32_MIN && t < INT32_MAX) { if (tz.getUtcOffset((acetime_t) t).isError() && y >= 2000 && y <= 2049) errors++; } }
+      for (long long t : pts) { if (t > INT32_MIN && t < INT32_MAX) { if (tz.getUtcOffset((acetime_t) t).isError() && y >= 2000 && y <= 2049) errors++;
+        // the other two accessors must not crash either, whatever the year (sanitizer build)
+        (void) tz.getDeltaOffset((acetime_t) t); (void) tz.getAbbrev((acetime_t) t); } }
       ExtendedZoneProcessor q;
       TimeZone tz2 = TimeZone::forZoneInfo(zi, &q);
       q.resetTransitionHighWater();
@@ -91,7 +93,8 @@ static int bufs() {
       TimeZone tz = TimeZone::forZoneInfo(zi, &p);
       long long base = (long long) LocalDate::forComponents(y, 1, 1).toEpochDays() * 86400LL;
       long long pts[] = {base, base + 86400, base + 181LL * 86400, base + 364LL * 86400 + 86399};
-      for (long long t : pts) { if (t > INT32_MIN && t < INT32_MAX) { if (tz.getUtcOffset((acetime_t) t).isError() && y >= 2000 && y <= 2049) errors++; } }
+      for (long long t : pts) { if (t > INT32_MIN && t < INT32_MAX) { if (tz.getUtcOffset((acetime_t) t).isError() && y >= 2000 && y <= 2049) errors++;
+        (void) tz.getDeltaOffset((acetime_t) t); (void) tz.getAbbrev((acetime_t) t); } }
       OffsetDateTime o = tz.getOffsetDateTime(LocalDateTime::forComponents(y, 7, 1, 12, 0, 0)); (void) o;
     }
 #if defined(SEANDST_ACETIME_VERIF)
